@@ -76,6 +76,13 @@ type Req struct {
 	// k >= 0: cancel the request context after k blocks were received (0: after CancelMs).
 	Cancel   int `json:"cancel"`
 	CancelMs int `json:"cancel_ms,omitempty"`
+	CancelUs int `json:"cancel_us,omitempty"` // added to CancelMs (microseconds, 0..999)
+	// Group g > 0: the request context is derived from a parent context that the request shares
+	// with the other requests of group g of its phase (a caller that issues several requests
+	// under one cancellable context); the parent is cancelled Case.GroupMs[g-1] ms after the
+	// phase started, which cancels all of them together. A member with an unavailable key does not
+	// give up on its own but ends with the group.
+	Group int `json:"group,omitempty"`
 }
 
 type Case struct {
@@ -96,6 +103,9 @@ type Case struct {
 	// be clean after that, too: "no longer contains those CIDs" is not over when the first look
 	// finds the list empty.
 	HoldMs int `json:"hold_ms,omitempty"`
+	// GroupMs[g-1]: when the shared parent context of cancel group g is cancelled (ms after the
+	// start of the phase)
+	GroupMs []int `json:"group_ms,omitempty"`
 }
 
 func blockOf(i, size int) blocks.Block {
@@ -114,11 +124,21 @@ func gen(t *rapid.T) Case {
 	var c Case
 	c.Nodes = rapid.IntRange(2, 6).Draw(t, "nodes")
 	c.DelayMs = rapid.SampledFrom([]int{0, 0, 1, 2, 3}).Draw(t, "delay")
+	// shape "burst" (a quarter of the cases): one caller issues 2-8 (thorough: 2-12) requests for
+	// disjoint key sets on one long-lived session under one shared cancellable context and
+	// cancels them together while most wants are still outstanding (blocks held by nobody or
+	// stored late), and does so again in up to 5 further rounds (phases); see genBurst
+	burst := rapid.IntRange(0, 3).Draw(t, "burst") == 0
+	nextPhase := 1
 	nb := rapid.IntRange(1, kit.Scale(10, 16)).Draw(t, "nblocks")
 	nreq := rapid.SampledFrom([]int{1, 2, 2, 3, 3}).Draw(t, "nreq")
+	if burst {
+		nreq = rapid.SampledFrom([]int{kit.Scale(8, 12), 8, 6, 5, 4, 3, 2}).Draw(t, "nburst")
+		nb = rapid.IntRange(nreq, max(nreq, kit.Scale(10, 16))).Draw(t, "nblocksburst")
+	}
 	// requesters: at most two distinct nodes, so that overlapping requests on one node are common
 	reqNodes := []int{rapid.IntRange(0, c.Nodes-1).Draw(t, "rn0")}
-	if c.Nodes >= 3 && rapid.IntRange(0, 2).Draw(t, "tworeq") == 0 {
+	if !burst && c.Nodes >= 3 && rapid.IntRange(0, 2).Draw(t, "tworeq") == 0 {
 		reqNodes = append(reqNodes, rapid.IntRange(0, c.Nodes-1).Draw(t, "rn1"))
 	}
 	isReq := map[int]bool{}
@@ -134,7 +154,11 @@ func gen(t *rapid.T) Case {
 	for i := 0; i < nb; i++ {
 		c.Sizes = append(c.Sizes, rapid.SampledFrom(sizePool).Draw(t, "size"))
 		var pl []int
-		if len(holders) > 0 && rapid.IntRange(0, 7).Draw(t, "unavailable") != 0 {
+		unavailable := rapid.IntRange(0, 7).Draw(t, "unavailable") == 0
+		if burst {
+			unavailable = rapid.IntRange(0, 1).Draw(t, "unavailableburst") == 0
+		}
+		if len(holders) > 0 && !unavailable {
 			k := rapid.IntRange(1, len(holders)).Draw(t, "nhold")
 			if rapid.IntRange(0, 1).Draw(t, "single") == 0 {
 				k = 1
@@ -147,8 +171,14 @@ func gen(t *rapid.T) Case {
 		late := 0
 		if rapid.IntRange(0, 5).Draw(t, "late") == 0 {
 			late = rapid.IntRange(1, 25).Draw(t, "latems")
+		} else if burst && rapid.IntRange(0, 2).Draw(t, "lateburst") == 0 {
+			late = rapid.IntRange(1, 40).Draw(t, "latemsburst")
 		}
 		c.LateMs = append(c.LateMs, late)
+	}
+	if burst {
+		nextPhase = genBurst(t, &c, reqNodes[0], nb, nreq)
+		nreq = 0
 	}
 	for r := 0; r < nreq; r++ {
 		q := Req{Node: reqNodes[rapid.IntRange(0, len(reqNodes)-1).Draw(t, "rnode")]}
@@ -171,6 +201,16 @@ func gen(t *rapid.T) Case {
 		}
 		c.Reqs = append(c.Reqs, q)
 	}
+	// a quarter of the other cases: the requests (each with probability 3/4) share one parent
+	// context that is cancelled after a generated delay, whatever their kind, node and session
+	if !burst && rapid.IntRange(0, 3).Draw(t, "shared") == 0 {
+		c.GroupMs = []int{rapid.SampledFrom(groupMsPool).Draw(t, "groupms")}
+		for i := range c.Reqs {
+			if rapid.IntRange(0, 3).Draw(t, "ingroup") != 0 {
+				c.Reqs[i].Group = 1
+			}
+		}
+	}
 	// second phase (half of the cases): one or two requests that start after all of the above
 	// ended, on a node that already requested something, mostly for keys that node asked for
 	// before (it never keeps a block, so the exchange has to fetch it again)
@@ -178,7 +218,7 @@ func gen(t *rapid.T) Case {
 		first := len(c.Reqs)
 		n2 := rapid.SampledFrom([]int{1, 1, 2}).Draw(t, "nreq2")
 		for r := 0; r < n2; r++ {
-			q := Req{Phase: 1, Node: c.Reqs[rapid.IntRange(0, first-1).Draw(t, "rnode2")].Node}
+			q := Req{Phase: nextPhase, Node: c.Reqs[rapid.IntRange(0, first-1).Draw(t, "rnode2")].Node}
 			var before []int
 			for _, p := range c.Reqs[:first] {
 				if p.Node == q.Node {
@@ -224,12 +264,75 @@ func gen(t *rapid.T) Case {
 	return c
 }
 
+var groupMsPool = []int{0, 1, 2, 3, 5, 10, 20, 40}
+
+// genBurst: n requests of one caller on node `node`, mostly session requests on one shared
+// long-lived session (the throw-away session of Exchange.GetBlocks is mixed in), with pairwise
+// disjoint key sets (every block index goes to at most one request; a request may repeat one
+// of its own keys), started (almost) together under one shared parent context (cancel group 1)
+// which is cancelled after a generated delay. The same requests are issued again in 0-5 further
+// rounds (phases; each round starts when the requests of the round before have ended and the
+// want-list was seen clean) under a fresh shared context each, cancelled after its own delay.
+// Returns the number of rounds.
+func genBurst(t *rapid.T, c *Case, node, nb, n int) int {
+	perm := rapid.Permutation(seq(nb)).Draw(t, "burstkeys")
+	keys := make([][]int, n)
+	for r := 0; r < n; r++ {
+		keys[r] = []int{perm[r]}
+	}
+	for _, k := range perm[n:] {
+		if r := rapid.IntRange(0, n).Draw(t, "owner"); r < n {
+			keys[r] = append(keys[r], k)
+		}
+	}
+	for r := 0; r < n; r++ {
+		q := Req{Node: node, Keys: keys[r], Cancel: -1, Group: 1}
+		q.Kind = rapid.SampledFrom([]string{"session", "session", "session", "session", "getblocks"}).Draw(t, "kindburst")
+		if rapid.IntRange(0, 3).Draw(t, "dupkey") == 0 {
+			q.Keys = append(q.Keys, rapid.SampledFrom(q.Keys).Draw(t, "dup"))
+		}
+		q.Start = rapid.SampledFrom([]int{0, 0, 0, 0, 1, 3}).Draw(t, "startburst")
+		if rapid.IntRange(0, 5).Draw(t, "docancelburst") == 0 {
+			q.Cancel = rapid.IntRange(0, len(q.Keys)).Draw(t, "cancelafterburst")
+			if q.Cancel == 0 {
+				q.CancelMs = rapid.SampledFrom([]int{0, 1, 2, 5, 20}).Draw(t, "cancelmsburst")
+			}
+		}
+		if rapid.IntRange(0, 7).Draw(t, "alone") == 0 {
+			q.Group = 0 // this one has its own context
+		}
+		c.Reqs = append(c.Reqs, q)
+	}
+	c.GroupMs = []int{rapid.SampledFrom(groupMsPool).Draw(t, "groupmsburst")}
+	rounds := rapid.SampledFrom([]int{6, 4, 3, 2, 1}).Draw(t, "rounds")
+	for r := 1; r < rounds; r++ {
+		c.GroupMs = append(c.GroupMs, rapid.SampledFrom(groupMsPool).Draw(t, "groupmsround"))
+		for _, q := range c.Reqs[:n] {
+			q.Phase = r
+			q.Keys = append([]int(nil), q.Keys...)
+			if q.Group > 0 {
+				q.Group = r + 1
+			}
+			c.Reqs = append(c.Reqs, q)
+		}
+	}
+	return rounds
+}
+
+func seq(n int) []int {
+	s := make([]int, n)
+	for i := range s {
+		s[i] = i
+	}
+	return s
+}
+
 // block sizes: the server answers a want-have for a block of at most 1024 bytes with the block
 // itself and for a bigger one with HAVE (the client then sends a want-block), so both sides
 // of that boundary are drawn
 var sizePool = []int{8, 16, 40, 300, 1024, 1025, 2000, 2000, 5000}
 
-const maxPhase = 3
+const maxPhase = 7
 
 // ---------------------------------------------------------------------------
 // one attempt
@@ -243,6 +346,15 @@ type outcome struct {
 	// ... and every lingering CID was (also) reported by GetWantlist(), sampled after
 	// GetWantBlocks() / GetWantHaves()
 	lingerAllInWantlist bool
+	// the suspicion is a lingering want, some lingering CID was outstanding when its request
+	// was cancelled, and: every such CID is reported as a want-have only (not by GetWantBlocks),
+	// and all lingering CIDs were still listed after every session of the case had been closed
+	// and the list had been polled again (no session owns them: a session that is still
+	// interested in a CID retracts it when it shuts down)
+	lingerOutstanding   bool
+	lingerDelivered     bool // some lingering CID had been delivered to every asker
+	lingerOutstHaveOnly bool
+	lingerOwnerless     bool
 	missingReq          int // index of the request with a missing delivery, else -1
 	nt                  bool
 	classes             []string
@@ -252,11 +364,19 @@ func valid(c Case) bool {
 	if c.SearchMs < 0 || c.RebroadcastMs < 0 || c.HoldMs < 0 || c.HoldMs > 2000 {
 		return false
 	}
+	for _, ms := range c.GroupMs {
+		if ms < 0 || ms > 1000 {
+			return false
+		}
+	}
 	if c.Nodes < 2 || c.Nodes > 6 || len(c.Sizes) == 0 || len(c.Place) != len(c.Sizes) || len(c.LateMs) != len(c.Sizes) || len(c.Reqs) == 0 {
 		return false
 	}
 	for _, q := range c.Reqs {
 		if q.Node < 0 || q.Node >= c.Nodes || len(q.Keys) == 0 || q.Phase < 0 || q.Phase > maxPhase {
+			return false
+		}
+		if q.Group < 0 || q.Group > len(c.GroupMs) || q.CancelUs < 0 || q.CancelUs > 999 || q.CancelMs < 0 {
 			return false
 		}
 		for _, k := range q.Keys {
@@ -387,7 +507,9 @@ func attempt(c Case, allowance time.Duration) outcome {
 		}
 	}
 	asked := map[int]map[cid.Cid]int{} // per node: CIDs asked for in the phases run so far
-	runReq := func(ri int, q Req) {
+	runReq := func(ri int, q Req, parent context.Context) {
+		// grouped: the request context is a child of the shared parent context of its cancel group
+		grouped := q.Group > 0
 		if q.Start > 0 {
 			time.Sleep(time.Duration(q.Start) * time.Millisecond)
 		}
@@ -402,7 +524,7 @@ func attempt(c Case, allowance time.Duration) outcome {
 			}
 			keys = append(keys, blks[k].Cid())
 		}
-		ctx, cancel := context.WithCancel(root)
+		ctx, cancel := context.WithCancel(parent)
 		defer cancel()
 		defer noteEnd(q.Node, want, got)
 		check := func(b blocks.Block) bool {
@@ -427,12 +549,12 @@ func attempt(c Case, allowance time.Duration) outcome {
 			if q.Cancel >= 0 {
 				go func() {
 					select {
-					case <-time.After(time.Duration(q.CancelMs) * time.Millisecond):
+					case <-time.After(time.Duration(q.CancelMs)*time.Millisecond + time.Duration(q.CancelUs)*time.Microsecond):
 						cancel()
 					case <-ctx.Done():
 					}
 				}()
-			} else if !avail[q.Keys[0]] {
+			} else if !avail[q.Keys[0]] && !grouped {
 				// nobody has it: give up after a while (this is the "cancel with the want outstanding" path)
 				go func() {
 					select {
@@ -452,7 +574,7 @@ func attempt(c Case, allowance time.Duration) outcome {
 			select {
 			case <-done:
 			case <-time.After(allowance):
-				if q.Cancel < 0 && avail[q.Keys[0]] {
+				if q.Cancel < 0 && avail[q.Keys[0]] && ctx.Err() == nil {
 					setSuspect("request %d: GetBlock(%d) on node %d did not return within %v although node(s) %v hold the block", ri, q.Keys[0], q.Node, allowance, c.Place[q.Keys[0]])
 				} else {
 					setSuspect("request %d: GetBlock(%d) on node %d did not return within %v after its context was cancelled", ri, q.Keys[0], q.Node, allowance)
@@ -467,7 +589,7 @@ func attempt(c Case, allowance time.Duration) outcome {
 					return
 				}
 				check(b)
-			} else if q.Cancel < 0 && avail[q.Keys[0]] {
+			} else if q.Cancel < 0 && avail[q.Keys[0]] && ctx.Err() == nil {
 				setViolation("request %d: GetBlock(%d) on node %d failed with %v although its context is live and node(s) %v hold the block", ri, q.Keys[0], q.Node, err, c.Place[q.Keys[0]])
 			} else if !errors.Is(err, context.Canceled) {
 				setViolation("request %d: GetBlock(%d) after cancellation returned %v, want context.Canceled", ri, q.Keys[0], err)
@@ -495,14 +617,15 @@ func attempt(c Case, allowance time.Duration) outcome {
 		}
 		var cancelTimer <-chan time.Time
 		if q.Cancel == 0 {
-			cancelTimer = time.After(time.Duration(q.CancelMs) * time.Millisecond)
+			cancelTimer = time.After(time.Duration(q.CancelMs)*time.Millisecond + time.Duration(q.CancelUs)*time.Microsecond)
 		}
 		deadline := time.After(allowance)
 		n := 0
 		for {
 			// everything that can arrive has arrived but some keys are held by nobody:
 			// the request can only end by cancellation
-			if !cancelled && len(got) == len(avail) && len(avail) < len(want) {
+			// (a member of a cancel group waits for the cancellation of the shared context instead)
+			if !cancelled && !grouped && len(got) == len(avail) && len(avail) < len(want) {
 				if cancelTimer == nil {
 					cancelTimer = time.After(5 * time.Millisecond)
 				}
@@ -510,7 +633,7 @@ func attempt(c Case, allowance time.Duration) outcome {
 			select {
 			case b, ok := <-ch:
 				if !ok {
-					if !cancelled && len(got) < len(want) {
+					if !cancelled && ctx.Err() == nil && len(got) < len(want) {
 						setViolation("request %d (%s on node %d): channel closed after %d of %d distinct blocks although the context is live", ri, q.Kind, q.Node, len(got), len(want))
 					}
 					return
@@ -527,7 +650,7 @@ func attempt(c Case, allowance time.Duration) outcome {
 				cancelTimer = nil
 				doCancel()
 			case <-deadline:
-				if cancelled {
+				if cancelled || ctx.Err() != nil {
 					setSuspect("request %d (%s on node %d): channel not closed %v after the context was cancelled", ri, q.Kind, q.Node, allowance)
 				} else {
 					var missing []int
@@ -566,6 +689,19 @@ func attempt(c Case, allowance time.Duration) outcome {
 			}
 		}
 		mu.Unlock()
+		// cancel groups of this phase: one shared parent context each, cancelled by the harness
+		// GroupMs after the phase started
+		groupCtx := map[int]context.Context{0: root}
+		var groupStop []func()
+		for _, q := range c.Reqs {
+			if q.Phase != phase || q.Group == 0 || groupCtx[q.Group] != nil {
+				continue
+			}
+			gctx, gcancel := context.WithCancel(root)
+			groupCtx[q.Group] = gctx
+			tm := time.AfterFunc(time.Duration(c.GroupMs[q.Group-1])*time.Millisecond, gcancel)
+			groupStop = append(groupStop, func() { tm.Stop(); gcancel() })
+		}
 		for ri, q := range c.Reqs {
 			if q.Phase != phase {
 				continue
@@ -573,10 +709,13 @@ func attempt(c Case, allowance time.Duration) outcome {
 			wg.Add(1)
 			go func(ri int, q Req) {
 				defer wg.Done()
-				runReq(ri, q)
+				runReq(ri, q, groupCtx[q.Group])
 			}(ri, q)
 		}
 		wg.Wait()
+		for _, stop := range groupStop {
+			stop()
+		}
 		mu.Lock()
 		bad := o.violation != "" || o.suspect != ""
 		mu.Unlock()
@@ -589,6 +728,7 @@ func attempt(c Case, allowance time.Duration) outcome {
 		// and want-haves)", GetWantBlocks / GetWantHaves return the two parts: a CID reported by any
 		// of the three is still on the want-list. GetWantlist is sampled last, so a want seen only
 		// by one of the other two either was retracted in between or the views disagree.
+		var inBlocks map[int]bool // of the node lingering() reports: CIDs GetWantBlocks() listed
 		lingering := func() (int, []int, []int) {
 			nodes := make([]int, 0, len(asked))
 			for node := range asked {
@@ -598,10 +738,12 @@ func attempt(c Case, allowance time.Duration) outcome {
 			for _, node := range nodes {
 				m := asked[node]
 				part := map[int]bool{}
+				inBlocks = map[int]bool{}
 				if !devWantlistOnly {
 					for _, k := range insts[node].Exchange.GetWantBlocks() {
 						if i, ok := m[k]; ok {
 							part[i] = true
+							inBlocks[i] = true
 						}
 					}
 					for _, k := range insts[node].Exchange.GetWantHaves() {
@@ -684,10 +826,58 @@ func attempt(c Case, allowance time.Duration) outcome {
 				if held > 0 {
 					where += fmt.Sprintf("; the list had been seen clean, then the sessions were kept open for %v (ProviderSearchDelay %d ms, RebroadcastDelay %d ms; 0 = default) and the CIDs were on the list again", held, c.SearchMs, c.RebroadcastMs)
 				}
+				haveOnly := true
+				for _, k := range outst {
+					if inBlocks[k] {
+						haveOnly = false
+					}
+				}
+				// Who keeps these CIDs listed? Close every session of the case and poll again: a
+				// session that is still interested in a CID retracts it when it shuts down; a want
+				// that stays listed has no owner (it was sent after its cancel).
+				ownerless := true
+				if len(sessCancel) > 0 {
+					for _, cancel := range sessCancel {
+						cancel()
+					}
+					after := min(cleanup, afterCloseConfirm)
+					if allowance == firstAllowance {
+						after = min(cleanup, afterCloseFirst)
+					}
+					end := time.Now().Add(after)
+					for {
+						gone := false
+						still := map[int]bool{}
+						for _, k := range insts[node].Exchange.GetWantlist() {
+							if i, ok := asked[node][k]; ok {
+								still[i] = true
+							}
+						}
+						for _, k := range l {
+							if !still[k] {
+								gone = true
+							}
+						}
+						if gone {
+							ownerless = false
+							where += "; after the sessions of the case were closed (some of) these CIDs left the list"
+							break
+						}
+						if time.Now().After(end) {
+							where += fmt.Sprintf("; still listed %v after every session of the case was closed", after)
+							break
+						}
+						time.Sleep(2 * time.Millisecond)
+					}
+				}
 				setSuspect("want-list of node %d still holds blocks %v %v after all its requests (phases 0..%d) completed or were cancelled (%s; delivered to every asker: %v; outstanding at a cancellation: %v)", node, l, cleanup, phase, where, deliv, outst)
 				mu.Lock()
 				o.lingerOnlyDelivered = len(outst) == 0
 				o.lingerAllInWantlist = len(notInWhole) == 0
+				o.lingerOutstanding = len(outst) > 0
+				o.lingerDelivered = len(deliv) > 0
+				o.lingerOutstHaveOnly = haveOnly
+				o.lingerOwnerless = ownerless
 				mu.Unlock()
 				break
 			}
@@ -750,11 +940,20 @@ func attempt(c Case, allowance time.Duration) outcome {
 				un = true
 			}
 		}
+		if q.Group > 0 {
+			// cancelled with the group before a late block is stored
+			for _, k := range q.Keys {
+				if q.Phase == 0 && c.LateMs[k] > c.GroupMs[q.Group-1]+q.Start {
+					un = true
+				}
+			}
+		}
 		if (q.Cancel >= 0 && q.Cancel < len(d)) || un {
 			cancelOutstanding = true
 		}
 		o.classes = append(o.classes, "kind:"+q.Kind)
 	}
+	o.classes = append(o.classes, groupClasses(c)...)
 	if overlap {
 		o.classes = append(o.classes, "overlapping-requests")
 	}
@@ -808,10 +1007,62 @@ func attempt(c Case, allowance time.Duration) outcome {
 	return o
 }
 
+// groupClasses labels the cancel groups of a case: requests of one phase under one shared
+// parent context.
+func groupClasses(c Case) []string {
+	var o struct{ classes []string }
+	type gk struct{ phase, group int }
+	members := map[gk][]Req{}
+	for _, q := range c.Reqs {
+		if q.Group > 0 {
+			members[gk{q.Phase, q.Group}] = append(members[gk{q.Phase, q.Group}], q)
+		}
+	}
+	for _, ms := range members {
+		if len(ms) < 2 {
+			continue
+		}
+		o.classes = append(o.classes, "shared-parent-context-cancelled")
+		// members on one long-lived session with pairwise disjoint key sets that are cancelled
+		// with wants outstanding (a key nobody holds, or stored after the cancellation)
+		per := map[[2]int]int{}
+		seen := map[int]int{}
+		disjoint := true
+		for i, q := range ms {
+			pending := false
+			for _, k := range q.Keys {
+				if j, ok := seen[k]; ok && j != i {
+					disjoint = false
+				}
+				seen[k] = i
+				if len(c.Place[k]) == 0 || (q.Phase == 0 && c.LateMs[k] > c.GroupMs[q.Group-1]+q.Start) {
+					pending = true
+				}
+			}
+			if q.Kind == "session" && pending && q.Cancel < 0 {
+				per[[2]int{q.Node, q.Sess}]++
+			}
+		}
+		for _, n := range per {
+			if n >= 2 && disjoint {
+				o.classes = append(o.classes, "shared-parent-context-cancelled:>=2-pending-requests-one-session-disjoint-keys")
+			}
+			if n >= 3 && disjoint {
+				o.classes = append(o.classes, "shared-parent-context-cancelled:>=3-pending-requests-one-session-disjoint-keys")
+			}
+		}
+	}
+	return o.classes
+}
+
 var (
 	firstAllowance   = 12 * time.Second
 	cleanupFirst     = 4 * time.Second
 	confirmAllowance = 60 * time.Second
+	// how long a lingering want is polled after the sessions of the case were closed
+	afterCloseFirst   = 2 * time.Second
+	afterCloseConfirm = 10 * time.Second
+	confirmAttempts   = 3
 )
 
 // development aid (bite tests of the second phase only): poll GetWantlist() alone
@@ -847,13 +1098,25 @@ func run(c Case) kit.Result {
 	if o.lingerOnlyDelivered && o.lingerAllInWantlist && kit.OpenFinding("C37", keyLateWant) {
 		return kit.Result{Err: errors.New(o.suspect), Known: keyLateWant}
 	}
+	if o.rebroadcastSignature(c) && kit.OpenFinding("C37", keyRebroadcast) && (!o.lingerDelivered || kit.OpenFinding("C37", keyLateWant)) {
+		return kit.Result{Err: errors.New(o.suspect), Known: keyRebroadcast}
+	}
 	// timing-dependent suspicion: run the case again on its own with a long allowance
 	fmt.Fprintf(os.Stderr, "c37: suspicion (%s); re-running the case alone with %v allowance\n", o.suspect, confirmAllowance)
 	if d := os.Getenv("VERIF_DEBUG_DIR"); d != "" {
 		b, _ := json.Marshal(map[string]any{"property": "C37", "check": "main", "error": o.suspect, "case": c})
 		os.WriteFile(fmt.Sprintf("%s/c37-%d.json", d, time.Now().UnixNano()), b, 0o644)
 	}
-	o2 := attempt(c, confirmAllowance)
+	// The failures in question depend on the schedule, so a confirmation run may simply not meet
+	// the interleaving again: up to confirmAttempts confirmation runs, each alone and with the long
+	// allowance; the suspicion is reported only if one of them confirms it.
+	var o2 outcome
+	for i := 0; i < confirmAttempts; i++ {
+		o2 = attempt(c, confirmAllowance)
+		if o2.violation != "" || o2.suspect != "" {
+			break
+		}
+	}
 	if o2.violation != "" {
 		return kit.Fail("%s", o2.violation)
 	}
@@ -864,6 +1127,8 @@ func run(c Case) kit.Result {
 			res.Known = keySameSession
 		case o2.lingerOnlyDelivered && o2.lingerAllInWantlist:
 			res.Known = keyLateWant
+		case o2.rebroadcastSignature(c) && (!o2.lingerDelivered || kit.OpenFinding("C37", keyLateWant)):
+			res.Known = keyRebroadcast
 		}
 		return res
 	}
@@ -880,7 +1145,34 @@ const (
 	// reports it too; a CID that only GetWantBlocks()/GetWantHaves() report is not explained by
 	// this finding.
 	keyLateWant = "want-relisted-after-delivery"
+	// a long-lived session broadcasts want-haves for CIDs its want sender reported as "all
+	// session peers answered DONT_HAVE" although the request that wanted them was cancelled in
+	// between (Session.run, opBroadcast after opCancel): the CIDs are back on the want-list as
+	// broadcast want-haves and no session is interested in them, so nothing retracts them, not even
+	// the shutdown of the session. Signature: see rebroadcastSignature.
+	keyRebroadcast = "cancelled-want-rebroadcast"
 )
+
+// rebroadcastSignature: the lingering-want suspicion matches the open finding keyRebroadcast.
+// Some lingering CID was outstanding when its request was cancelled; every one of these is listed
+// as a want-have only (a broadcast) and by GetWantlist() too; the case has a long-lived session
+// on which CIDs nobody holds (or stored late) were requested - only then a session peer answers
+// DONT_HAVE; and the CIDs stayed listed after every session of the case had been closed (a want a
+// session is still interested in - e.g. one whose cancel the session lost - goes away then, and
+// is not explained by this finding). Lingering CIDs that had been delivered to every asker are
+// tolerated next to them only while the finding keyLateWant is open.
+func (o outcome) rebroadcastSignature(c Case) bool {
+	if !o.lingerOutstanding || !o.lingerOutstHaveOnly || !o.lingerAllInWantlist || !o.lingerOwnerless {
+		return false
+	}
+	sess := false
+	for _, q := range c.Reqs {
+		if q.Kind == "session" {
+			sess = true
+		}
+	}
+	return sess
+}
 
 // sameSessionOverlapCancelled: request ri shares its session, its phase (the calls are
 // concurrent) and at least one key with a request that ends by cancellation (own cancel point,
